@@ -32,8 +32,8 @@ func c06Observe(c *mon.Ctx, o *mon.Obj, s mon.Snap, desc string) {
 func init() {
 	var nSeeds int
 	mon.Register(&mon.Check{
-		ID: "C06",
-		Rule: "evaluations = Lint*Ex calls whose every (lint name, status) pair was judged against the prefix contract; distinct_nontrivial = distinct (lint, status) pairs with status >= pass observed (the measure of how many return paths were actually seen). Workload: corpus, generated seeds, hostile mutants, directed families (AIA with unparseable URLs, code-signing key-usage lattice, CRL reason codes/duplicate serials, QC language variants, SCT lattices, signature-algorithm lattice, EKU combinations).",
+		ID:          "C06",
+		Rule:        "evaluations = Lint*Ex calls whose every (lint name, status) pair was judged against the prefix contract; distinct_nontrivial = distinct (lint, status) pairs with status >= pass observed (the measure of how many return paths were actually seen). Workload: corpus, generated seeds, hostile mutants, directed families (AIA with unparseable URLs, code-signing key-usage lattice, CRL reason codes/duplicate serials, QC language variants, SCT lattices, signature-algorithm lattice, EKU combinations).",
 		Assumptions: []string{"a return path that no generated input reaches is not judged; evidence lists the lints that never produced a finding"},
 		Setup: func(c *mon.Ctx) error {
 			if err := setupCommon(c); err != nil {
